@@ -9,6 +9,9 @@ func init() {
 }
 
 func runC04(p *Prog, r *Report) {
+	crossCutting(p, r, "C04.X", "protocol/req")
+	importFrom(p, r, "C04.11/req-timers", "REQ deadline timers expire only the request they were armed for (shared with C18.3)", func(t *Report, rule string) { c18ReqTimers(p, t) }, "*")
+	importFrom(p, r, "C04.12/reply-matching", "a reply from any connected peer that carries the current request id completes the request (shared with C03.1)", func(t *Report, rule string) { c03ReplyMatching(p, t, rule) }, "*")
 	lockBalance(p, r, "C04.8/E1", "protocol/req")
 	q := NewQ(p, r)
 	R := "C04.1/E5"
@@ -104,6 +107,40 @@ func runC04(p *Prog, r *Report) {
 	q.StoreClasses(R, "repMsg", rq+"context.repMsg", map[string]string{rq + "(*pipe).receiver": "set", rq + "(*context).cancel": "nil", rq + "(*context).RecvMsg": "nil"})
 	q.StoreClasses(R, "reqID", rq+"context.reqID", map[string]string{rq + "(*context).SendMsg": "set,nil", rq + "(*context).cancel": "nil", rq + "(*context).RecvMsg": "nil"})
 	q.StoreClasses(R, "lastPipe", rq+"context.lastPipe", map[string]string{rq + "(*socket).send": "set", rq + "(*socket).RemovePipe": "nil"})
+
+	R = "C04.9/queued-flag-tracks-send-queue"
+	r.Describe(R, "c.queued is true exactly while the context is in s.sendQ: every append of the context sets it in the same step, the scheduler's pop and cancelSend clear it (cancelSend only searches the queue when it is set, resendMessage only re-queues when it is clear)")
+	for _, nm := range []string{"SendMsg", "resendMessage"} {
+		f := q.Fn(R, "protocol/req", "context", nm)
+		if !f.OK() {
+			continue
+		}
+		var ap Sel
+		for _, e := range f.Ev("store", "recv.s.sendQ") {
+			if strings.HasPrefix(e.Args[0], "append(recv.s.sendQ,") {
+				ap = append(ap, e)
+			}
+		}
+		ok := len(ap) == 1
+		if ok {
+			ok = false
+			for _, e := range f.Ev("store", "recv.queued").Arg(0, "true") {
+				if e.In.Block() == ap[0].In.Block() {
+					ok = true
+				}
+			}
+		}
+		r.Check(ok, R, nm+"/append-sets-queued", ap.Pos(p), "queued = true in the step that appends the context", nm+" appends the context to the send queue without setting queued: a later cancel (new Send, Close, reply) does not find it there, and the stale entry is scheduled with another request's state")
+	}
+	if sd.OK() {
+		pop := sd.Ev("store", "recv.sendQ").Arg(0, "recv.sendQ[1:]")
+		clr := sd.Ev("store", "*.queued").Arg(0, "false")
+		r.Check(len(pop) == 1 && len(clr) == 1 && pop[0].In.Block() == clr[0].In.Block(), R, "send/pop-clears-queued", clr.Pos(p), "queued = false in the step that pops the context", "the scheduler pops a context without clearing queued: resendMessage then never re-queues it")
+	}
+	if cs := q.Fn(R, "protocol/req", "context", "cancelSend"); cs.OK() {
+		clr := cs.Ev("store", "recv.queued").Arg(0, "false")
+		r.Check(len(clr) == 1 && clr.AllGuarded("recv.queued"), R, "cancelSend/clears-queued", clr.Pos(p), "queued cleared when the context is taken out", "cancelSend does not clear queued")
+	}
 
 	R = "C04.6/pipe-loss"
 	r.Describe(R, "RemovePipe: a request carried by the lost pipe is cancelled when retry is off (resendTime == 0), else re-sent at once")
